@@ -1266,7 +1266,7 @@ func shrinkToFitMirror(c *core.Ctx) core.Obligation {
 // s1.ChordAngleFromSquaredLength, which clamps.
 var chordRawSites = map[string]string{
 	"s2.interiorDist":  "XQ^2 + QR^2 with XQ^2 = (x.c)^2/|c|^2 <= |x|^2 (Cauchy-Schwarz) and QR = 1 - |c x x|/|c| in [0,1]: at most 2 + a few ulps",
-	"(*s2.Cap).decode": "the wire value of a cap's radius; Cap.IsValid() is the documented way to reject a radius above 4",
+	"(*s2.Cap).decode": "the wire value of a cap's radius; Cap.decode rejects it unless the cap IsValid() (R-DECSHAPE `Cap.decode:validated`, D40)",
 }
 
 func chordFromLengthClamped(c *core.Ctx) []core.Obligation {
